@@ -121,6 +121,8 @@ def build_val(vs, col=None):
         return bytearray.fromhex(vs[1])
     if t == 'decimal':
         return decimal.Decimal(vs[1])
+    if t == 'numstr':
+        return vs[1]
     if t == 'uuid':
         return uuid.UUID(int=int(vs[1]))
     if t == 'inet':
@@ -210,6 +212,8 @@ def gal_py(o, spec=None):
             return '(PFloatSpec %d)' % s
         return '(PFloat %s %s)' % tuple(z(a) for a in float_dy(o))
     if isinstance(o, str):
+        if k == 'Decimal':
+            raise Unprintable('numeric string for a Decimal column (Decimal() parsing is not modelled)')
         if k == 'Inet':
             fam = socket.AF_INET6 if ':' in o else socket.AF_INET
             return '(PInet %s)' % zl(list(socket.inet_pton(fam, o)))
